@@ -44,6 +44,6 @@ class Vertex(Point):
     def from_point(cls, point: Point, index: int):
         """Creates a Vertex from point, including other properties"""
         vertex = cls(point.position, index)
-        vertex.projected_to = point.projected_to
+        vertex.projected_to = list(point.projected_to)
 
         return vertex
